@@ -13,6 +13,33 @@ sys.path.insert(0, VERIF)
 BASELINE = ("cd /repo && /venv/bin/python -m pytest -ra -q -p no:cacheprovider --timeout=900 "
             "--continue-on-collection-errors --junitxml=/tmp/pysm-baseline.junit.xml")
 
+TECH = {
+ "C01": "static analysis: all-paths walk of _trigger/_activate (term substitution), loop-shape and first-wins rules, equality-membership idiom table, all-of executor rule, who-may-write inventory",
+ "C02": "static analysis: abstract-trace inclusion of every _activate path in the documented group order (spec automaton), internal-flag conditioning, derives-from dataflow for state/source/target views, convention-name table agreement",
+ "C03": "static analysis: must-pass-through (enqueue before drain), deque end pairing, lock typestate on processing_loop paths, who-may-call closure on the resolved call graph, acyclicity (Tarjan SCC) of the event path",
+ "C04": "static analysis: lock typestate with exceptional edges out of every call (Exception / BaseException classes), handler inventory on the event path, single-write ordering rule",
+ "C05": "static analysis: sibling agreement of sync/async abstract traces modulo await, maybe-awaitable effect analysis (sources/sinks, summaries), flag-propagation and facade must-pass rules, positive-control scan",
+ "C06": "static analysis: structural preconditions of the enqueue/try-acquire/drain protocol - typestate LOCKED for every consumer op, re-check-after-release on every normal exit, no await inside the release window",
+ "C07": "static analysis: table agreement of reserved names, layering order, adapter must-pass, iterator-consumption typestate over all paths of bind_expected, identity-bearing cache key",
+ "C08": "static analysis: regex AST analysis (re._parser), operator table agreement, laziness/evaluation-order rules on combinator paths, fold-shape rules on build_expression, registration-time-only call-graph rule, identity of guard entries",
+ "C09": "static analysis: must-call of the five checks, truth-table comparison of each selecting predicate over its atoms, worklist-dataflow rule on the reachability visit",
+ "C10": "static analysis: who-may-read/write of the model's state field, membership-dominates-write, no-shadow attribute inventory, None-vs-falsy sweep over the state-handling modules",
+ "C11": "static analysis: path rule on start() (None-test may be widened, never narrowed), who-may-create/call rules for the initial trigger, guarded-pop rule, sentinel flow",
+ "C12": "static analysis: all-providers loop shape, single attachment path (call graph), id()-bearing keys with seen-test dominance, per-instance container freshness, engine-selection invariant ordering",
+ "C13": "static analysis: taint rule on send() (called object must be a BoundEvent built there or a guarded declared-event lookup), single enqueue site, order-preserving de-duplication shape, descriptor dataflow",
+ "C14": "static analysis: derives-from dataflow of the returned value (only BEFORE+ON results, in that order), value-set {0,1,many} analysis of the unwrap, unfiltered-collection rule",
+ "C15": "static analysis: argument dataflow of the to/from_/itself/any builders on all iterations, call-graph phase rule for any() expansion, by-reference list combination, event-designator normalisation, metaclass dispatch table",
+ "C16": "static analysis: shared-mutable inventory (module/closure/class level) against a triaged table, identity-bearing memo key, freshness of per-class/per-instance containers, instance-time writes to definition objects",
+ "C17": "static analysis: sibling agreement between __init__ and __getstate__/__setstate__ (attribute carry table, excluded set, step sequence, engine-selection ordering)",
+ "C18": "static analysis: argument dataflow in contrib/diagram.py on all paths of get_graph and helpers (node per state, edge per external transition source->target, peripheries, highlight comparison, label source)",
+}
+NOTE = {
+ "C06": "Decides that the code has the shape under which the protocol's textbook argument applies; interleavings themselves are not enumerated. Trusted: atomicity of deque/Lock primitives in CPython.",
+ "C07": "Only structural preconditions are decided; that the binding is right for every signature x call shape is a value-level claim and is not decided.",
+ "C09": "The 'iff' over all graphs is algorithmic; decided is the shape of the BFS and of the five predicates. A re-implemented algorithm is reported as unrecognised (exit 2), never guessed.",
+ "C15": "Behavioural equivalence of whole machines across renderings is not decided; only the translation of each style into (source, target, event) and where it is registered.",
+ "C05": "Relational equivalence of user-visible traces for arbitrary machines is not decided; sibling agreement + await discipline are. Callback slots not in awaitflow.MA_SLOTS are assumed synchronous (listed in evidence).",
+}
 props = [json.loads(l) for l in open(os.path.join(VERIF, "properties.jsonl"))]
 checks, na = [], []
 for p in props:
@@ -35,14 +62,14 @@ for p in props:
         "level_claimed": {
             "category": "other",
             "text": getattr(mod, "LEVEL_TEXT", "static all-paths analysis of the structural clauses of the property on "
-                                               "the kernel functions every machine and history goes through; the "
-                                               "behavioural residual that depends on run-time values is not decided"),
+                                               "the kernel functions every machine and history goes through: " + mod.EXPLANATION[:600]),
             "design_ref": f"DESIGN.md section 3, {pid}",
         },
-        "level_note": getattr(mod, "LEVEL_NOTE", "Trusted: CPython's ast grammar and Python's evaluation order; the "
-                                                 "path enumerator/resolver in /verif/sa. Assumes user programs reach "
-                                                 "the kernels through the public API only."),
-        "technique": getattr(mod, "TECHNIQUE", "static analysis: path-sensitive AST walk + def-use terms + call-graph rules"),
+        "level_note": NOTE.get(pid, "Structural clauses only (see EXPLANATION in the evidence file); the behavioural residual that depends on "
+                                    "run-time values is not decided.") + " Trusted: CPython's ast grammar and evaluation order; the path "
+                      "enumerator/resolver in /verif/sa (cross-checked against mypy's receiver types in the thorough tier). Assumes user programs "
+                      "reach the kernels through the public API only. Genuine defects recorded instead of repaired are in known_findings.json.",
+        "technique": TECH.get(pid, "static analysis: path-sensitive AST walk + def-use terms + call-graph rules"),
     })
 
 manifest = {
